@@ -14,7 +14,7 @@
     polynomial class) isolates the only analytic fact that is not proved here. *)
 From Coq Require Import Reals Lra Lia List String Bool Arith.
 From Coquelicot Require Import Coquelicot.
-From WG Require Import Lib.NumpySem Lib.Moments.
+From WG Require Import Lib.NumpySem Lib.Moments Lib.MomentsGCL.
 From GenC13 Require Import MomentsGen.
 Import ListNotations.
 Local Open Scope R_scope.
@@ -136,6 +136,21 @@ Proof.
   - apply recache_current.
 Qed.
 
+(** the scale after a history is the last one set *)
+Definition scale_after (T : R) (ops : list gop) : R :=
+  fold_left (fun T o => match o with OpMomentum t => t | _ => T end) ops T.
+Lemma init_scale L T s0 : s_momentumFalloffT (grid_init L T s0) = T.
+Proof. reflexivity. Qed.
+Lemma step_scale s o :
+  s_momentumFalloffT (gstep s o) = match o with OpMomentum t => t | _ => s_momentumFalloffT s end.
+Proof. destruct o; reflexivity. Qed.
+Lemma history_scale ops : forall s,
+  s_momentumFalloffT (fold_left gstep ops s) = scale_after (s_momentumFalloffT s) ops.
+Proof.
+  induction ops as [|o ops IH]; intros s; [reflexivity|].
+  cbn [fold_left]. rewrite IH, step_scale. unfold scale_after. cbn [fold_left]. reflexivity.
+Qed.
+
 Lemma rescaled_equals_fresh_lem L T s0 ops L' s1 :
   let s := fold_left gstep ops (grid_init L T s0) in
   let s' := grid_init L' (s_momentumFalloffT s) s1 in
@@ -156,12 +171,18 @@ Definition qz (N i : nat) : R :=
 Definition qp (N i : nat) : R :=
   intNodeWeight_pp (INR N) false (Nat.eqb i rp_lo) (Nat.eqb (S i) (rp_hi N)) (rpNode (INR N) i).
 
-Lemma qz_value N i : qz N i = sqrt (1 - rzNode (INR N) i ^ 2) * (PI / INR N).
-Proof. unfold qz, intNodeWeight_pz. reflexivity. Qed.
-Lemma qp_value N i :
-  qp N i = sqrt (1 - rpNode (INR N) i ^ 2) *
-           (if Nat.eqb i rp_lo then PI / (INR N - 1) / 2 else PI / (INR N - 1)).
-Proof. unfold qp, intNodeWeight_pp. destruct (Nat.eqb i rp_lo); reflexivity. Qed.
+Lemma qz_value N i : INR N <> 0 -> qz N i = sqrt (1 - rzNode (INR N) i ^ 2) * (PI / INR N).
+Proof.
+  intros H. unfold qz, intNodeWeight_pz.
+  destruct (Nat.eqb i rz_lo), (Nat.eqb (S i) (rz_hi N)); field; exact H.
+Qed.
+(** away from the kept endpoint rho = -1 (whose term vanishes anyway, see section 8) *)
+Lemma qp_value N i : INR N - 1 <> 0 -> Nat.eqb i rp_lo = false ->
+  qp N i = sqrt (1 - rpNode (INR N) i ^ 2) * (PI / (INR N - 1)).
+Proof.
+  intros H E. unfold qp, intNodeWeight_pp. rewrite E.
+  destruct (Nat.eqb (S i) (rp_hi N)); field; exact H.
+Qed.
 
 (** * 4. the moments are Gauss-Chebyshev-Lobatto sums of  measure * weight * deltaF *)
 Definition gd_sum (s : gst) (N : nat) (msq : R) (g : R -> R -> R -> R) (f : R -> R -> R) : R :=
@@ -305,6 +326,98 @@ Lemma ops_nodal_lem bM bN : solver_basis bM -> solver_basis bN ->
   List.length (results integrate_new_basis (getDeltas_ops bM bN) []) = 4%nat.
 Proof. intros [-> | ->] [-> | ->]; vm_compute; repeat split. Qed.
 
+
+(** * 8. exactness on the polynomial class of the grid *)
+Lemma rz_is_lobatto N i : rzNode (INR N) i = - cos (INR i * PI / INR N).
+Proof. unfold rzNode. f_equal. Qed.
+Lemma rp_is_lobatto N i : (1 <= N)%nat -> rpNode (INR N) i = - cos (INR i * PI / INR (N - 1)).
+Proof. intros H. unfold rpNode. rewrite minus_INR by lia. cbn [INR]. f_equal. Qed.
+
+Lemma one_minus_sq_node th : 0 <= 1 - (- cos th) ^ 2.
+Proof. pose proof (COS_bound th). nra. Qed.
+
+Lemma pz_rule_exact_lem N c : (2 <= N)%nat -> (List.length c + 2 <= 2 * N)%nat ->
+  sumf rz_lo (rz_hi N) (fun i =>
+    qz N i * (sqrt (1 - rzNode (INR N) i ^ 2) * Ucomb c (rzNode (INR N) i))) =
+  PI / 2 * nth 0 c 0.
+Proof.
+  intros HN Hc. rewrite <- (lobatto_Ucomb N c HN Hc).
+  change rz_lo with 1%nat. change (rz_hi N) with N.
+  apply sumf_ext; intros i Hi.
+  rewrite qz_value by (apply not_0_INR; lia). rewrite rz_is_lobatto.
+  set (x := - cos (INR i * PI / INR N)).
+  replace (sqrt (1 - x ^ 2) * (PI / INR N) * (sqrt (1 - x ^ 2) * Ucomb c x)) with
+    (PI / INR N * ((sqrt (1 - x ^ 2) * sqrt (1 - x ^ 2)) * Ucomb c x)) by ring.
+  rewrite sqrt_sqrt by apply one_minus_sq_node. reflexivity.
+Qed.
+
+Lemma pp_rule_exact_lem N c : (3 <= N)%nat -> (List.length c + 4 <= 2 * N)%nat ->
+  sumf rp_lo (rp_hi N) (fun k =>
+    qp N k * (sqrt (1 - rpNode (INR N) k ^ 2) * Ucomb c (rpNode (INR N) k))) =
+  PI / 2 * nth 0 c 0.
+Proof.
+  intros HN Hc. rewrite <- (lobatto_Ucomb (N - 1) c) by lia.
+  change rp_lo with 0%nat. change (rp_hi N) with (N - 1)%nat.
+  rewrite sumf_first by lia.
+  (* the kept endpoint rho = -1 does not contribute, whatever its weight *)
+  replace (qp N 0 * (sqrt (1 - rpNode (INR N) 0 ^ 2) * Ucomb c (rpNode (INR N) 0))) with 0.
+  2:{ rewrite rp_is_lobatto by lia. cbn [INR]. replace (0 * PI / INR (N - 1)) with 0.
+      - rewrite cos_0. replace (1 - (- (1)) ^ 2) with 0 by ring. rewrite sqrt_0. ring.
+      - unfold Rdiv. ring. }
+  rewrite Rplus_0_l. apply sumf_ext; intros i Hi.
+  assert (EN : INR N - 1 = INR (N - 1)) by (rewrite minus_INR by lia; reflexivity).
+  rewrite qp_value.
+  2:{ rewrite EN. apply not_0_INR; lia. }
+  2:{ change rp_lo with 0%nat. apply Nat.eqb_neq; lia. }
+  rewrite rp_is_lobatto by lia. rewrite EN.
+  set (x := - cos (INR i * PI / INR (N - 1))).
+  replace (sqrt (1 - x ^ 2) * (PI / INR (N - 1)) * (sqrt (1 - x ^ 2) * Ucomb c x)) with
+    (PI / INR (N - 1) * ((sqrt (1 - x ^ 2) * sqrt (1 - x ^ 2)) * Ucomb c x)) by ring.
+  rewrite sqrt_sqrt by apply one_minus_sq_node. reflexivity.
+Qed.
+
+(** the deviation's integrand  measure * g * deltaF  lies in the class: at every node it is
+    kappa * sqrt(1-rz^2) A(rz) * sqrt(1-rp^2) B(rp)  with A, B combinations of U_0..U_{2n-3} *)
+Definition integrand_in_class (s : gst) (N : nat) (msq : R) (g : R -> R -> R -> R)
+           (f : R -> R -> R) (kappa : R) (A B : list R) : Prop :=
+  forall i j, (rz_lo <= i < rz_hi N)%nat -> (rp_lo <= j < rp_hi N)%nat ->
+    let rz := rzNode (INR N) i in let rp := rpNode (INR N) j in
+    let pz := s_pzValues s rz in let pp := s_ppValues s rp in
+    measure pz pp msq (s_dpzdrz s rz) (s_dppdrp s rp) * g (sqrt (Esq msq pz pp)) pz pp * f rz rp
+    = kappa * (sqrt (1 - rz ^ 2) * Ucomb A rz) * (sqrt (1 - rp ^ 2) * Ucomb B rp).
+
+Lemma exact_sum_lem s N msq g f kappa A B :
+  (3 <= N)%nat -> (List.length A + 2 <= 2 * N)%nat -> (List.length B + 4 <= 2 * N)%nat ->
+  integrand_in_class s N msq g f kappa A B ->
+  gd_sum s N msq g f = kappa * (PI / 2 * nth 0 A 0) * (PI / 2 * nth 0 B 0).
+Proof.
+  intros HN HA HB Hcl.
+  rewrite <- (pz_rule_exact_lem N A) by lia. rewrite <- (pp_rule_exact_lem N B HN HB).
+  rewrite Rmult_assoc, sumf_prod, <- sumf_scal.
+  unfold gd_sum. apply sumf_ext; intros i Hi. rewrite <- sumf_scal.
+  apply sumf_ext; intros j Hj. cbv zeta.
+  pose proof (Hcl i j Hi Hj) as E. cbv zeta in E.
+  match goal with |- ?q1 * ?q2 * ?m * ?gg * ?ff = _ =>
+    replace (q1 * q2 * m * gg * ff) with (q1 * q2 * (m * gg * ff)) by ring end.
+  rewrite E. ring.
+Qed.
+
+Section Exactness.
+(** the ONLY analytic fact not proved here: orthogonality of the Chebyshev polynomials of
+    the second kind for the weight sqrt(1-x^2) (with linearity of the integral), i.e. the
+    value of the continuous integral of a member of the class *)
+Hypothesis chebU_weight_integral : forall c : list R,
+  RInt (fun x => sqrt (1 - x ^ 2) * Ucomb c x) (-1) 1 = PI / 2 * nth 0 c 0.
+
+Lemma exact_lem s N msq g f kappa A B :
+  (3 <= N)%nat -> (List.length A + 2 <= 2 * N)%nat -> (List.length B + 4 <= 2 * N)%nat ->
+  integrand_in_class s N msq g f kappa A B ->
+  gd_sum s N msq g f =
+  kappa * RInt (fun x => sqrt (1 - x ^ 2) * Ucomb A x) (-1) 1
+        * RInt (fun x => sqrt (1 - x ^ 2) * Ucomb B x) (-1) 1.
+Proof. intros. rewrite !chebU_weight_integral. apply exact_sum_lem; assumption. Qed.
+End Exactness.
+
 (* ================================================================================= *)
 Theorem moment_weights : forall pz pp msq dpz dpp, 0 < Esq msq pz pp ->
   let E := sqrt (Esq msq pz pp) in
@@ -396,6 +509,35 @@ Theorem getDeltas_weights_multiply_nodal_values : forall bM bN,
   List.length (results integrate_new_basis (getDeltas_ops bM bN) []) = 4%nat.
 Proof. exact ops_nodal_lem. Qed.
 Print Assumptions getDeltas_weights_multiply_nodal_values.
+
+(** why section 7 matters: along a spectral (non-nodal) axis, multiplying COEFFICIENTS by a
+    node-dependent weight is not multiplying the function's values by it *)
+Theorem nodal_basis_is_necessary :
+  exists (V : (nat -> R) -> nat -> R) (w c : nat -> R),
+    (forall a b f g i, V (fun k => a * f k + b * g k) i = a * V f i + b * V g i) /\
+    V (fun k => w k * c k) O <> w O * V c O.
+Proof. exact weight_in_spectral_basis_is_not_weight_on_values. Qed.
+Print Assumptions nodal_basis_is_necessary.
+
+Theorem quadrature_rules_exact_on_class : forall N c,
+  ((2 <= N)%nat -> (List.length c + 2 <= 2 * N)%nat ->
+   sumf rz_lo (rz_hi N) (fun i =>
+     qz N i * (sqrt (1 - rzNode (INR N) i ^ 2) * Ucomb c (rzNode (INR N) i))) = PI / 2 * nth 0 c 0) /\
+  ((3 <= N)%nat -> (List.length c + 4 <= 2 * N)%nat ->
+   sumf rp_lo (rp_hi N) (fun k =>
+     qp N k * (sqrt (1 - rpNode (INR N) k ^ 2) * Ucomb c (rpNode (INR N) k))) = PI / 2 * nth 0 c 0).
+Proof. intros N c. split; [apply pz_rule_exact_lem|apply pp_rule_exact_lem]. Qed.
+Print Assumptions quadrature_rules_exact_on_class.
+
+Theorem moments_exact_on_class : forall s N msq g f kappa A B,
+  (forall c : list R, RInt (fun x => sqrt (1 - x ^ 2) * Ucomb c x) (-1) 1 = PI / 2 * nth 0 c 0) ->
+  (3 <= N)%nat -> (List.length A + 2 <= 2 * N)%nat -> (List.length B + 4 <= 2 * N)%nat ->
+  integrand_in_class s N msq g f kappa A B ->
+  gd_sum s N msq g f =
+  kappa * RInt (fun x => sqrt (1 - x ^ 2) * Ucomb A x) (-1) 1
+        * RInt (fun x => sqrt (1 - x ^ 2) * Ucomb B x) (-1) 1.
+Proof. intros s N msq g f kappa A B H. apply exact_lem. exact H. Qed.
+Print Assumptions moments_exact_on_class.
 
 (** non-vacuity: a state produced by the constructor, a positive mass, a velocity *)
 Example hypotheses_satisfiable :
